@@ -125,8 +125,9 @@ var scenarios = []ScenarioDef{
 		// two readers asking for different hosts (the matchers of a rule are shared by all requests)
 		Name: "S8-readers-with-different-hosts-during-an-update",
 		Init: []Op{{Kind: "add", Src: "A", Ver: "a1"}},
-		Threads: [][]Op{{{Kind: "update", Src: "A", Ver: "a2"}}, {{Kind: "find", Path: "/x", Host: "r1.example"}, {Kind: "find", Path: "/y", Host: "r9.other"}},
-			{{Kind: "find", Path: "/x", Host: "r2.example"}, {Kind: "find", Path: "/x", Host: "nope.example"}}},
+		// (%78 is x, %79 is y: paths that are normalised before they are looked up)
+		Threads: [][]Op{{{Kind: "update", Src: "A", Ver: "a2"}}, {{Kind: "find", Path: "/%78", Host: "r1.example"}, {Kind: "find", Path: "/y", Host: "r9.other"}},
+			{{Kind: "find", Path: "/%79", Host: "r2.example"}, {Kind: "find", Path: "/x", Host: "nope.example"}}},
 		Final: []Op{find("/x"), {Kind: "find", Path: "/y", Host: "r3.example"}},
 	},
 }
